@@ -392,6 +392,34 @@ def job_genfw(seed):
     if spec is None:
         rec.count("genfw.none_accepted")
         return rec
+    # a second parameter on one link whose code name CONTAINS the code name of the first (rec_rate_tx / rec_rate): both must survive the export
+    import copy as _copy
+    kinds = {c["name"]: c["kind"] for c in spec["comps"]}
+    byname = {p_["name"]: p_ for p_ in spec["pars"]}
+    cand = [i for i, (a, b, pn) in enumerate(spec["transitions"]) if pn != ">" and kinds.get(a) == "normal" and pn in byname and not byname[pn].get("timed")
+            and byname[pn]["format"] in ("rate", "probability") and not byname[pn].get("function")]
+    if cand and r.random() < 0.6:
+        sp2 = _copy.deepcopy(spec)
+        i = r.choice(cand)
+        a, b, pn = sp2["transitions"][i]
+        twin = _copy.deepcopy(next(p_ for p_ in sp2["pars"] if p_["name"] == pn))
+        twin["name"] = pn + "_b"
+        sp2["pars"].append(twin)
+        sp2["transitions"].insert(i, [a, b, pn + "_b"])   # the longer name stands first in the cell
+        try:
+            fw2, data2, parset2, settings2 = genfw.build(sp2)
+            times = {float(t) for t in data2.tvec}
+            for tab in list(data2.tdve.values()) + list(data2.transfers) + list(data2.interpops):
+                for ts in tab.ts.values():
+                    times |= {float(t) for t in ts.t}
+            data2.change_tvec(np.array(sorted(times)))
+            parset2 = at.ParameterSet(fw2, data2, "default")
+            r1b, e1b = try_sim(settings2, fw2, parset2)
+            if e1b is None:
+                spec, fw, data, parset, settings, r1 = sp2, fw2, data2, parset2, settings2, r1b
+                rec.count("genfw.with_substring_named_parameters_on_one_link")
+        except Exception:
+            pass
     base = {"api": "generated framework", "seed": seed}
     replay = {"kind": "genfw", "seed": seed, "spec": spec}
     n_res = sum(1 for t in spec["transitions"] if t[2] == ">")
@@ -429,6 +457,46 @@ def job_genfw(seed):
         rec.count("genfw.sim_pairs")
         if d12 > TOL:
             rec.violation({"api": "round trip", "case": "simulation differs after spreadsheet round trip"}, f"generated framework (seed {seed}): results differ by {d12:.3g} at {w12} after framework+databook round trip", replay)
+    return rec
+
+
+# ------------------------------------------------------------------------------------------------
+# job: objects stamped with the version at which their last migration was introduced (files written by that release): loading them must not run that migration again
+# ------------------------------------------------------------------------------------------------
+def job_versions(name, get_project):
+    import atomica as at
+    import sciris as sc
+    from atomica import migration as MG
+
+    rec = Rec()
+    P = sc.dcp(get_project(name))
+    r0, e0 = try_sim(P.settings, P.framework, P.parsets[0])
+    if e0 is None:
+        P.parsets[0].set_initialization(r0, year=float(r0.t[len(r0.t) // 2]))   # a saved initial state travels with the parameter set
+    objs = {"ParameterSet": P.parsets[0], "ProgramSet": P.progsets[0] if len(P.progsets) else None, "ProjectFramework": P.framework}
+    content = {"ParameterSet": lambda o: (parset_content(o), None if o.initialization is None else {str(k): np.asarray(v, dtype=float).tolist() for k, v in o.initialization.values.items()}),
+               "ProgramSet": progset_content, "ProjectFramework": framework_content}
+    for cls, obj in objs.items():
+        if obj is None or cls not in MG.migrations:
+            continue
+        last = sorted(MG.migrations[cls], key=lambda m: MG.LooseVersion(m.new_version))[-1].new_version
+        before = content[cls](obj)
+        o2 = sc.dcp(obj)
+        o2.version = last          # what a file written by release `last` holds: an object that is already in the format that release introduced
+        try:
+            o3 = MG.migrate(sc.loadstr(sc.dumpstr(o2)))
+            after = content[cls](o3)
+        except Exception as ex:
+            rec.violation({"api": "migration.migrate", "case": "raises on an object of the release that introduced its last migration", "class": cls}, f"{name}: {cls} stamped {last}: {type(ex).__name__}: {str(ex)[:200]}", {"kind": "versions", "project": name, "class": cls})
+            continue
+        rec.count("versions." + cls)
+        rec.case({"api": "migration.migrate", "project": name, "class": cls, "version": last}, nontrivial=True)
+        rec.traces += 1
+        if before != after:
+            d = diff_content(before[0], after[0], exact=True) if cls == "ParameterSet" else diff_content(before, after, exact=True)
+            what = short(d) if d else "the saved initialization: " + ("dropped" if after[1] is None else "changed")
+            rec.violation({"api": "migration.migrate", "case": "object of the release that introduced its last migration is migrated again", "class": cls},
+                          f"{name}: a {cls} written by release {last} (already in that format) changes when it is loaded: {what}", {"kind": "versions", "project": name, "class": cls})
     return rec
 
 
@@ -1080,13 +1148,24 @@ def job_migrated(fname):
         rec.violation({"api": "ProjectData.to_spreadsheet", "case": "content changed"}, f"{fname} (migrated): {short(other)}", replay)
     for opname, op in (("validate", lambda d: d.validate(fw)), ("add_pop", lambda d: d.add_pop("newpop", "New population")), ("add_transfer", lambda d: d.add_transfer("newtr", "New transfer"))):
         res = []
+        after = []
         for d in (sc.dcp(data), sc.dcp(d2)):
             try:
                 op(d)
                 res.append("ok")
+                after.append(d)
             except Exception as ex:  # noqa
                 res.append(f"{type(ex).__name__}: {str(ex)[:100]}")
         rec.case({**base, "what": opname}, nontrivial=True)
+        if res == ["ok", "ok"] and opname != "validate":
+            # the same edit on the loaded (migrated) databook and on the one rebuilt from its own spreadsheet must give the same content, also after export and re-import
+            try:
+                ca, cb = data_content(rt_data(after[0], fw)), data_content(rt_data(after[1], fw))
+                dd2 = [x for x in diff_content(ca, cb) if not legacy_units(x)]
+            except Exception as ex:  # noqa
+                dd2 = [("export after " + opname, f"{type(ex).__name__}: {str(ex)[:120]}", "ok on the rebuilt databook")]
+            if dd2:
+                rec.violation({"api": "migration", "case": "edit of a migrated databook differs from the same edit of the rebuilt one", "op": opname}, f"{fname}: after ProjectData.{opname}: {short(dd2)}", replay)
         if res[0] != res[1]:
             if "_pop_types" in res[0] or "pop_type" in res[0]:
                 rec.violation(MIGRATION_KEY, f"{fname}: ProjectData.{opname} on the loaded (migrated) databook: {res[0]}; on the databook rebuilt from its own spreadsheet: {res[1]}", replay)
@@ -1117,6 +1196,8 @@ def run_job(job):
             return job, job_migrated(job[1])
         if kind == "genfw":
             return job, job_genfw(job[1])
+        if kind == "versions":
+            return job, job_versions(job[1], c16.get_project)
         raise ValueError(kind)
     except Exception:  # noqa
         rec = Rec()
